@@ -2876,7 +2876,11 @@ loop:
 
 	// If there is a potential ambiguity, all results must be the same
 	for _, ambiguousResult := range ambiguousResults {
-		if ambiguousResult != result {
+		// One binding can be exported under several names ("export {v as a, v as
+		// b}"), so the location of the export name is not part of the comparison
+		ignoringNameLoc := ambiguousResult
+		ignoringNameLoc.nameLoc = result.nameLoc
+		if ignoringNameLoc != result {
 			if result.kind == matchImportNormal && ambiguousResult.kind == matchImportNormal &&
 				result.nameLoc.Start != 0 && ambiguousResult.nameLoc.Start != 0 {
 				return matchImportResult{
